@@ -812,6 +812,19 @@ func TestCheck(t *testing.T) {
 	}
 
 	// the monitors must have seen what they claim to watch
+	// deep-fork must have produced its situation (also true when the walk is broken: judged on what was requested, not on the outcome)
+	for _, must := range []string{"walkdown/state_for_lower_page/peer_pages_ahead", "walkdown/state_for_lower_page/peer_same_page_or_behind"} {
+		if r.Get(must) == 0 {
+			r.Fatalf("the run never observed %q: no node had to answer an undecodable TransactionSet with a State for a lower page in that situation", must)
+		}
+	}
+	if r.Violations() == 0 {
+		for _, must := range []string{"walkdown/page0_range_query/peer_pages_ahead", "climb/range_query_for_higher_pages", "walkdown/state_requests_page/0", "walkdown/state_requests_page/1"} {
+			if r.Get(must) == 0 {
+				r.Fatalf("all scenarios converged but the run never observed %q: the deep-fork family does not exercise the page walk it claims", must)
+			}
+		}
+	}
 	for _, must := range []string{"handled/Gossip", "handled/State", "handled/TransactionSet", "handled/TransactionListQuery", "handled/TransactionRangeQuery", "handled/TransactionList",
 		"dropped", "duplicated", "delayed_released", "stale_injected", "reordered_deliveries", "invalid_offered", "admissions_observed", "conversations_expired"} {
 		if r.Get(must) == 0 {
